@@ -126,9 +126,14 @@ func ruleC18(p *Prog, r *Res) {
 							return false
 						}
 						for _, l := range as.Lhs {
+							// by type, not by name: the accumulator is reached through a *[]byte
 							if se, ok := ast.Unparen(l).(*ast.StarExpr); ok {
-								if id, ok := se.X.(*ast.Ident); ok && id.Name == "s" {
-									return true
+								if id, ok := se.X.(*ast.Ident); ok {
+									if pt, isPtr := info.TypeOf(id).Underlying().(*types.Pointer); isPtr {
+										if sl, isSl := pt.Elem().Underlying().(*types.Slice); isSl && types.TypeString(sl.Elem(), nil) == "byte" {
+											return true
+										}
+									}
 								}
 							}
 						}
@@ -165,7 +170,8 @@ func ruleC18(p *Prog, r *Res) {
 				// both successors evaluated
 				outSeen, argSeen := false, false
 				for _, c := range callsInStmts(cc.Body) {
-					if id, ok := c.Fun.(*ast.Ident); ok && id.Name == "evaluate" {
+					// by role: a call of a local function value (the recursive walk), whatever it is called
+					if id, ok := c.Fun.(*ast.Ident); ok && isLocalFuncVar(info, id) {
 						for _, a := range c.Args {
 							if se, ok := ast.Unparen(a).(*ast.SelectorExpr); ok {
 								if se.Sel.Name == "Out" {
@@ -178,7 +184,6 @@ func ruleC18(p *Prog, r *Res) {
 						}
 					}
 				}
-				_ = info
 				r.Check(outSeen && argSeen, rule, fkey+" branch class evaluates both successors", p.Pos(cc), "evaluate(i.Out) and evaluate(i.Arg) both called", "an alternation must analyse both i.Out and i.Arg")
 			}
 		}
@@ -197,6 +202,15 @@ func ruleC18(p *Prog, r *Res) {
 	r.Floor(rule, 2*11+6, r.CountRule(rule))
 }
 
+func isLocalFuncVar(info *types.Info, id *ast.Ident) bool {
+	v, ok := info.Uses[id].(*types.Var)
+	if !ok || v.IsField() {
+		return false
+	}
+	_, isSig := v.Type().Underlying().(*types.Signature)
+	return isSig
+}
+
 func isFallthrough(s ast.Stmt) bool {
 	b, ok := s.(*ast.BranchStmt)
 	return ok && b.Tok.String() == "fallthrough"
@@ -205,7 +219,7 @@ func isFallthrough(s ast.Stmt) bool {
 func assignsPosToOut(body []ast.Stmt) bool {
 	for _, st := range body {
 		if as, ok := st.(*ast.AssignStmt); ok && len(as.Lhs) == 1 && len(as.Rhs) == 1 {
-			if id, ok := as.Lhs[0].(*ast.Ident); ok && id.Name == "pos" {
+			if _, ok := as.Lhs[0].(*ast.Ident); ok {
 				if se, ok := as.Rhs[0].(*ast.SelectorExpr); ok && se.Sel.Name == "Out" {
 					return true
 				}
